@@ -255,10 +255,14 @@ def dedup_mutations():
         return False
 
     def spawn_on_hit(seg):
-        seen = set()
+        # a second worker for an ID the LRU still holds: only distinguishable once the first worker
+        # has left the "fetch" state, i.e. after a FakeFetch for that ID
+        seen, fetched = set(), set()
         for i, e in enumerate(seg):
+            if e.get("ev") == "FakeFetch":
+                fetched.add(e["id"])
             if e.get("ev") == "Dedup":
-                if e["id"] in seen and (i + 1 >= len(seg) or seg[i + 1].get("ev") != "Spawn"):
+                if e["id"] in seen and e["id"] in fetched and (i + 1 >= len(seg) or seg[i + 1].get("ev") != "Spawn"):
                     seg.insert(i + 1, {"ev": "Spawn", "id": e["id"], "src": "agent"})
                     return True
                 seen.add(e["id"])
@@ -1084,7 +1088,7 @@ def c14(ctx):
             kinds[e["out"]["kind"]] = kinds.get(e["out"]["kind"], 0) + 1
     ctx.extra["observed_kinds"] = kinds
     segs = [[{"ev": "Reset", "seg": e.get("case"), "sig": e.get("sig")}, e] for e in events if e.get("ev") == "InjectCase"]
-    fails = validate_segments(ctx, "InjectTrace", "InjectTrace.cfg", segs, batch=600)
+    fails = validate_segments(ctx, "InjectTrace", "InjectTrace.cfg", segs, batch=1500)
     for seg, idx, out, inv in fails:
         e = seg[1]
         report_failure(ctx, e.get("sig"), "request/response classes %s: observed %s, which the injection rules of C14 do not allow" % (json.dumps(e["c"], sort_keys=True), json.dumps(e["out"], sort_keys=True)), seg=seg, tlc_out=out[-2000:])
@@ -1304,14 +1308,26 @@ def c18(ctx):
     go_build_repo(ctx, "./app", "app")
     go_build_harness(ctx)
     events, _ = drive(ctx, "approute", cases=cpath, timeout=3000)
-    segs, fails = app_validate(ctx, events, "routing", {"RouteCase"})
+    # function level: the unexported mostSpecificMatchingBackend on random backend sets (go test -overlay)
+    fn_out = os.path.join(ctx.scratch, "routefn.ndjson")
+    nfn = 20000 if ctx.tier == "thorough" else 2000
+    rc, out = go_test_overlay(ctx, "app/store", os.path.join(VERIF, "harness", "overlay", "route_verif_test.go"), run="TestVerifRouteFn",
+                              env={"VERIF_ROUTEFN_OUT": fn_out, "VERIF_ROUTEFN_N": str(nfn), "VERIF_SEED": str(ctx.seed)})
+    if rc != 0 or not os.path.exists(fn_out):
+        save_debug(ctx, "routefn.out", out)
+        raise Inconclusive("overlay test of mostSpecificMatchingBackend did not run: %s" % out[-500:])
+    fn_events = read_ndjson(fn_out)
+    ctx.evaluations += len(fn_events)
+    ctx.extra["function_level_cases"] = len(fn_events)
+    events = events + fn_events
+    segs, fails = app_validate(ctx, events, "routing", {"RouteCase", "RouteFn"})
     answers = {}
     for e in events:
         if e.get("ev") == "RouteCase":
             answers["404" if e["got"] == "404" else "backend"] = answers.get("404" if e["got"] == "404" else "backend", 0) + 1
     ctx.extra["routing_answers"] = answers
     ok = [s for s in segs if not any(s is f[0] for f in fails)]
-    routed = [s for s in ok if s[-1]["got"] != "404" and len(s[1].get("list", [])) >= 2]
+    routed = [s for s in ok if s[-1].get("ev") == "RouteCase" and s[-1]["got"] != "404" and len(s[1].get("list", [])) >= 2]
     if routed:
         def wrong_backend(seg):
             others = [b["id"] for b in seg[1]["list"] if b["id"] != seg[-1]["got"]]
